@@ -64,6 +64,19 @@ CLAIMED.update({
             "means, variances, chosen timepoints and marginal likelihood proved equal on every path.",
             "As C10; priors symbolic (shared through a node-name map); samples at time 0; ignore_oldest_root off.",
             TECH + "; relational (two-input) execution", "4/C11"),
+    "C06": ("Relational symbolic execution with one symbolic scale factor c > 0 (every positive real) shared by "
+            "two runs of the real code (rates / c; ages, eps, timepoints, population sizes * c). z3 proves "
+            "on every path pair: the 14 approx.*_moments and 14 *_projection functions take the same skip "
+            "decision and return means * c, variances * c^2, phases unchanged, natural parameters (alpha, "
+            "beta / c); _constrain_ages(t c, eps c) = c _constrain_ages(t, eps) (<= 5 nodes, 0-1 "
+            "iterations); mutational_timescale + piecewise_scale_point_estimate on cat3 with 1-2 "
+            "intervals; PopulationSizeHistory with 1-2 epochs; whole InsideOutsideMethod.run / "
+            "MaximizationMethod.run on cherry/cat3 with 2-3 grid points in both probability spaces.",
+            "Kernel-wise claim: the EP message-passing loop around the projections and date() end to end are "
+            "exercised only by the replays (public API at c in {3.7, 1e-3, 123456.789} and the model's c). "
+            "Exact reals; hypergeometric Laplace approximations, exp/log/lgamma and the Poisson pmf are "
+            "uninterpreted functions of their (proved scale-free) arguments.", TECH + "; two-run relational "
+            "(product) encoding", "4/C06"),
     "C19": ("For every positive real x (symbolic, piecewise over the axis) z3 proves the executed arithmetic of "
             "_digamma/_trigamma equal to the exact recurrence plus the Stirling series with exact Bernoulli "
             "coefficients (to 1e-16) and bounds the first omitted term where the series is used (1e-14 / 1e-11 "
